@@ -62,6 +62,7 @@ def entries():
         "SE3.t": ([A, L], lambda a, x: (SE3.Tx(x) * SE3.Rx(a)).t), "SE3.R": ([A, L], lambda a, x: (SE3.Tx(x) * SE3.Rx(a)).R),
         "SE3.inv": ([A, L], lambda a, x: (SE3.Tx(x) * SE3.Rx(a)).inv()), "SE3.Ad": ([A, L], lambda a, x: (SE3.Tx(x) * SE3.Rx(a)).Ad()),
         "SE3.jacob": ([A, L], lambda a, x: (SE3.Tx(x) * SE3.Rx(a)).jacob()),
+        "simplify": ([A, L], lambda a, x: (SE3.Rx(a) * SE3.Tx(x) * SE3.Rx(a)).simplify()),
         "Twist3.Rx": ([A], lambda a: Twist3.Rx(a)), "Twist3.Ry": ([A], lambda a: Twist3.Ry(a)), "Twist3.Rz": ([A], lambda a: Twist3.Rz(a)),
         # symbolic pose expressions
         "SE3.Rx*SE3.Tx": ([A, L], lambda a, x: SE3.Rx(a) * SE3.Tx(x)),
@@ -74,6 +75,62 @@ def entries():
         "SE3.Tx/SE3.Rz": ([A, L], lambda a, x: SE3.Tx(x) / SE3.Rz(a)),
     }
     return E
+
+
+def mat_entries():
+    """(name, arg kind) -> (kinds, f): entries taking a matrix / pose built from a composed symbolic rotation and a
+    translation (x, y, z); the table of names and argument kinds is Api.SymMatApi x Api.SymMatArgs"""
+    import spatialmath.base as b
+    from spatialmath import SO3, SE3
+    A, L = "angle", "length"
+
+    def is_sym(*v):
+        return any(isinstance(x, sympy.Basic) for x in v)
+
+    rots = {"one-axis": (1, lambda a: b.rotx(a[0])),
+            "two-axis": (2, lambda a: b.rotx(a[0]) @ b.roty(a[1])),
+            "euler": (3, lambda a: b.eul2r(a[0], a[1], a[2])),
+            "number-times-symbol": (1, lambda a: b.rotz(0.3) @ b.rotx(a[0]))}
+
+    def hom(R, t):
+        T = np.eye(4, dtype=object if (R.dtype == object or is_sym(*t)) else float)
+        T[:3, :3] = R
+        T[:3, 3] = t
+        return T
+
+    def eye(n, like):
+        return np.eye(n, dtype=object) if like.dtype == object else np.eye(n)
+    T0 = b.transl(0.5, -1.0, 2.0) @ b.troty(0.4)
+    T2 = b.transl(-1.0, 0.25, 3.0) @ b.trotz(-0.7)
+    fns = {
+        "trinv": (True, lambda R, t: b.trinv(hom(R, t))),
+        "tr2delta": (True, lambda R, t: b.tr2delta(hom(R, t))),
+        "tr2delta(T0,T1)": (True, lambda R, t: b.tr2delta(T0, hom(R, t))),
+        "tr2jac": (True, lambda R, t: b.tr2jac(hom(R, t))),
+        "tr2jac(samebody)": (True, lambda R, t: b.tr2jac(hom(R, t), samebody=True)),
+        "vex(R-I)": (False, lambda R, t: b.vex(R - eye(3, R))),
+        "vex(R-R')": (False, lambda R, t: b.vex(R - R.T)),
+        "vexa(T-I)": (True, lambda R, t: b.vexa(hom(R, t) - eye(4, hom(R, t)))),
+        "det": (False, lambda R, t: b.det(R)),
+        "det(4x4)": (True, lambda R, t: b.det(hom(R, t))),
+        "SE3.inv": (True, lambda R, t: SE3(hom(R, t), check=False).inv()),
+        "SE3.Ad": (True, lambda R, t: SE3(hom(R, t), check=False).Ad()),
+        "SE3.jacob": (True, lambda R, t: SE3(hom(R, t), check=False).jacob()),
+        "SE3.t": (True, lambda R, t: SE3(hom(R, t), check=False).t),
+        "SO3.R": (False, lambda R, t: SO3(R, check=False).R),
+        "SO3.inv": (False, lambda R, t: SO3(R, check=False).inv()),
+        "SE3*SE3": (True, lambda R, t: SE3(hom(R, t), check=False) * SE3(T2, check=False)),
+        "SE3*point": (True, lambda R, t: SE3(hom(R, t), check=False) * [1, -2, 3]),
+        "SO3*point": (False, lambda R, t: SO3(R, check=False) * [1, -2, 3]),
+        "simplify": (True, lambda R, t: SE3(hom(R, t), check=False).simplify()),
+    }
+    out = {}
+    for name, (uses_t, f) in fns.items():
+        for ak, (na, rf) in rots.items():
+            kinds = [A] * na + ([L] * 3 if uses_t else [])
+            out[(name, ak)] = (kinds, (lambda *p, na=na, rf=rf, f=f, uses_t=uses_t:
+                                       f(rf(p[:na]), list(p[na:na + 3]) if uses_t else [0.0, 0.0, 0.0])))
+    return out
 
 
 def to_array(r):
@@ -159,12 +216,23 @@ def run_entry(j, name, mode, kinds, fn, rng):
         worst = max(worst, float(np.max(np.abs(ev - rn))) / mag)
         m = (rn == 0.0) | (rn == 1.0)
         const_mask = m if const_mask is None else (const_mask & m)
-        if const_mask is not None:
-            prev = getattr(run_entry, "_last", None)
-        run_entry._vals = rn
     if worst > TOL:
         j.fail("%s|%s|%s|symbolic-differs-from-numeric" % (PID, site, feat), dict(detail, rel_error=worst), cid)
         return
+    # an entry is a structural constant only if the numeric path returns exactly 0 / 1 for generic arguments too:
+    # 40 more random points (numeric path only) make a rounding coincidence such as cos^2 + sin^2 == 1.0 negligible
+    for _ in range(40):
+        if const_mask is None or not const_mask.any():
+            break
+        full = [fixed.get(i) for i in range(len(kinds))]
+        for i in free:
+            full[i] = rng.uniform(-3.0, 3.0) if kinds[i] == "angle" else rng.uniform(-10, 10)
+        try:
+            rn = to_array(fn(*full)).astype(float)
+        except Exception:  # noqa: BLE001
+            continue
+        if rn.shape == const_mask.shape:
+            const_mask &= (rn == 0.0) | (rn == 1.0)
     # structural constants: exactly 0 / 1 in the numeric path at every point  =>  symbol-free 0 / 1 symbolically
     bad = []
     if const_mask is not None:
@@ -237,11 +305,26 @@ def run(tier):
             continue
         kinds, fn = ent
         run_entry(j, c["name"], c["mode"], kinds, fn, rng)
+    # matrix-argument entries x ways of composing the symbolic matrix
+    mcalls = [e["call"] for e in ra.json if "call" in e and e["call"]["op"] == "symmat"]
+    ME = mat_entries()
+    mseen = set()
+    for c in mcalls:
+        key = (c["name"], c["arg"], c["mode"])
+        if key in mseen:
+            continue
+        mseen.add(key)
+        if (c["name"], c["arg"]) not in ME:
+            raise MachineryError("SymMatApi entry without a binding: %s" % (key,))
+        kinds, fn = ME[(c["name"], c["arg"])]
+        run_entry(j, "%s[%s]" % (c["name"], c["arg"]), c["mode"], kinds, fn, rng)
+    if len(mseen) < 100:
+        raise MachineryError("SymMat export too small: %d" % len(mseen))
     rc = run_tlc("MC_Ctor", "Ctor_quick", timeout=300)
     exact_constructors(j, rc.json)
     j.sample({"call": calls[0]})
     cov = {"states": ra.distinct + rc.distinct, "transitions": ra.generated + rc.generated,
-           "traces_validated_against_impl": len(seen), "entries": len(names),
+           "traces_validated_against_impl": len(seen) + len(mseen), "entries": len(names), "matrix_entry_cases": len(mseen),
            "rule": "case = (entry or pose expression, all-symbolic | mixed); each substituted at 5 special + 4 random points"}
     return {"judge": j, "coverage": cov, "level": "model_checking", "assumptions": [
         "structural constants are the entries the numeric path returns as exactly 0 or 1 at every substitution point",
